@@ -1,7 +1,7 @@
 //! Engine B: enumerated accepted grammars -> real `RustOutput::run` -> rustc (batched, cached by content) ->
 //! the emitted parsers run on every input up to the bound inside the batch process (oracles in `vexec`).
 
-use crate::front::with_front;
+use crate::front::try_front;
 use rayon::prelude::*;
 use serde_json::{json, Value};
 use std::collections::BTreeMap;
@@ -30,7 +30,7 @@ pub enum GenOutcome {
 /// Runs the real front end and, if there is no error diagnostic, the real code generator.
 pub fn generate(g: &Grammar, scratch: &Path, id: usize) -> GenOutcome {
     let text = g.text();
-    with_front(&text, |fr| {
+    let r = try_front(&text, |fr| {
         if fr.has_error() {
             return GenOutcome::Rejected(fr.error_codes());
         }
@@ -61,7 +61,9 @@ pub fn generate(g: &Grammar, scratch: &Path, id: usize) -> GenOutcome {
         };
         let _ = std::fs::remove_dir_all(&dir);
         out
-    })
+    });
+    // a panic of the front end itself is C12's business; here the grammar simply is not accepted
+    r.unwrap_or_else(|p| GenOutcome::Rejected(vec![format!("front-end panic: {p}")]))
 }
 
 fn between<'a>(s: &'a str, start: &str, end: &str) -> Option<&'a str> {
